@@ -58,17 +58,17 @@ func e1configs(quick bool) []e1cfg {
 	medium := []string{"s1", "s1x", "kk", "s2", "s12", "a0", "a1", "u0"}
 	if quick {
 		return []e1cfg{
-			{name: "flat", trie: false, pool: medium, maxList: 2, depth: 2},
+			{name: "flat", trie: false, pool: append(append([]string{}, medium...), "s1a"), maxList: 2, depth: 2},
 			{name: "flat/deep", trie: false, pool: small, maxList: 2, depth: 3},
 		}
 	}
 	return []e1cfg{
-		{name: "flat/wide", trie: false, pool: []string{"s1", "s1x", "s1m", "s1a", "kk", "s2", "s12", "a0", "a1", "a2", "a0x", "u0", "u1", "c0", "k0"}, maxList: 2, depth: 2},
+		{name: "flat/wide", trie: false, pool: []string{"s1", "s1x", "s1m", "s1a", "kk", "s2", "s12", "a0", "a1", "a2", "a0x", "u0", "u1", "c0", "k0", "m0"}, maxList: 2, depth: 2},
 		{name: "flat/triples", trie: false, pool: []string{"s1", "s1x", "kk", "s2", "a0", "a1"}, maxList: 3, depth: 2},
-		{name: "flat/deep", trie: false, pool: medium, maxList: 2, depth: 3},
-		{name: "flat/deeper", trie: false, pool: small, maxList: 2, depth: 4},
-		{name: "trie", trie: true, pool: medium, maxList: 2, depth: 2},
-		{name: "trie/deep", trie: true, pool: small, maxList: 2, depth: 3},
+		{name: "flat/deep", trie: false, pool: medium, maxList: 2, depth: 4},
+		{name: "flat/deeper", trie: false, pool: small, maxList: 2, depth: 6},
+		{name: "trie/deep", trie: true, pool: medium, maxList: 2, depth: 3},
+		{name: "trie/deeper", trie: true, pool: small, maxList: 2, depth: 4},
 	}
 }
 
@@ -112,10 +112,36 @@ func lookup(cat *catalogue, names []string) []*txInfo {
 	return out
 }
 
-// execHistory builds a fresh world, replays hist and evaluates the oracle after the last op.
-func execHistory(cat *catalogue, cfg *e1cfg, ops []e1op, hist []int) (out e1out) {
+// execHistory executes hist; a violation found on a node that was restarted is attributed to the restart only if the
+// same history WITHOUT its restarts does not show it (same root cause = same key).
+func execHistory(cat *catalogue, cfg *e1cfg, ops []e1op, hist []int) e1out {
+	out, restarted := execHistory1(cat, cfg, ops, hist)
+	if len(out.Viol) == 0 || !restarted {
+		return out
+	}
+	var plain []int
+	for _, o := range hist {
+		if ops[o].kind != opRestart {
+			plain = append(plain, o)
+		}
+	}
+	ref, _ := execHistory1(cat, cfg, ops, plain)
+	has := map[string]bool{}
+	for _, v := range ref.Viol {
+		has[v[0]] = true
+	}
+	for i, v := range out.Viol {
+		if !has[v[0]] {
+			out.Viol[i][0] = v[0] + ":only-after-restart"
+		}
+	}
+	return out
+}
+
+// execHistory1 builds a fresh world, replays hist and evaluates the oracle after the last op.
+func execHistory1(cat *catalogue, cfg *e1cfg, ops []e1op, hist []int) (out e1out, restarted bool) {
 	w := newWorld(cat, cfg.trie, true)
-	defer func() { w.close() }()
+	defer func() { restarted = w.restarted; w.close() }()
 	viol := func(key, what string) { out.Viol = append(out.Viol, [2]string{key, what}) }
 	for i, oi := range hist {
 		op := ops[oi]
@@ -156,15 +182,24 @@ func execHistory(cat *catalogue, cfg *e1cfg, ops []e1op, hist []int) (out e1out)
 				}
 				if len(list) == 0 {
 					if last {
-						return e1out{} // nothing to propose: disabled
+						return e1out{}, w.restarted // nothing to propose: disabled
 					}
 					continue
 				}
 			} else {
 				list = lookup(cat, op.txs)
 			}
-			vb, vparts, where := offerBlock(w.c, w.r, decodeAll(list), fromPool)
+			vb, vparts, where, offered := offerBlock(w.c, w.r, decodeAll(list), fromPool)
 			committed := false
+			if vb == nil && offered != nil && last {
+				// the cold validator refused; the node under test is a validator too, with a mempool cache that may know
+				// the transactions (its CheckBlock skips the stateless checks for cached ones)
+				_, _, ok, executed := validatorVerdict(w.c, offered, w.maxBytes())
+				if ok || executed {
+					viol("node-with-warm-mempool-cache-executes-block-the-cold-validator-refuses:"+orUnclassified(before.classify(list)),
+						fmt.Sprintf("%s: refused by the cold validator (%s), executed by the node that has seen the transactions", op, where))
+				}
+			}
 			if vb != nil {
 				cOK, _ := w.commitEverywhere(vb, vparts)
 				committed = true
@@ -182,7 +217,7 @@ func execHistory(cat *catalogue, cfg *e1cfg, ops []e1op, hist []int) (out e1out)
 					if cl == "" {
 						cl = "unclassified"
 					}
-					viol("mempool-hands-proposer-unexecutable-block:"+cl, fmt.Sprintf("the node's own Reap() %v cannot be executed (%s)", names(list), where))
+					viol("mempool-hands-proposer-unexecutable-block:"+orUnclassified(cl), fmt.Sprintf("the node's own Reap() %v cannot be executed (%s)", names(list), where))
 				}
 			}
 			if vb != nil && w.r.Height() != w.c.Height() {
@@ -192,7 +227,7 @@ func execHistory(cat *catalogue, cfg *e1cfg, ops []e1op, hist []int) (out e1out)
 					for _, b := range bad {
 						viol("committed-reuse:"+orUnclassified(out.Class), "validator: "+b)
 					}
-					return out
+					return out, w.restarted
 				}
 				vk.Fatalf("nodes diverged inside a history prefix %v", hist[:i+1])
 			}
@@ -206,18 +241,14 @@ func execHistory(cat *catalogue, cfg *e1cfg, ops []e1op, hist []int) (out e1out)
 	m, bad := scanChain(w.c, cat)
 	_, badR := scanChain(w.r, cat)
 	for _, b := range append(bad, badR...) {
-		key := "committed-reuse:" + orUnclassified(out.Class)
-		if w.restarted {
-			key += ":after-restart"
-		}
-		viol(key, fmt.Sprintf("%s: %s", last, b))
+		viol("committed-reuse:"+orUnclassified(out.Class), fmt.Sprintf("%s: %s", last, b))
 	}
 	if len(out.Viol) > 0 {
-		return out
+		return out, w.restarted
 	}
 	if cl, what := w.reapProblems(m); cl != "" {
-		viol("mempool-offers-consumed-input:"+cl, fmt.Sprintf("after %s: %s", last, what))
-		return out
+		viol("mempool-offers-consumed-input:"+orUnclassified(cl), fmt.Sprintf("after %s: %s", last, what))
+		return out, w.restarted
 	}
 	// canonical state
 	var committed []string
@@ -230,12 +261,21 @@ func execHistory(cat *catalogue, cfg *e1cfg, ops []e1op, hist []int) (out e1out)
 	good, utxo, future, cache, kimgs := w.poolView()
 	out.Key = fmt.Sprintf("h%d|%s|r%v|g%s|u%s|f%s|c%s|k%d", w.c.Height(), strings.Join(committed, ","), w.restarted,
 		strings.Join(good, ","), strings.Join(utxo, ","), strings.Join(future, ","), strings.Join(cache, ","), kimgs)
-	return out
+	return out, w.restarted
 }
 
+// orUnclassified maps the re-use class of the offending op to the root-cause class used in violation keys: the three
+// key-image classes are guarded by three different mechanisms (in-transaction check, per-block map, persistent set);
+// on the account side there are two: a nonce below the sender's next one (replay in the same or a later block, a
+// conflicting twin) and a nonce above it (gap, reordering).
 func orUnclassified(s string) string {
-	if s == "" {
+	switch s {
+	case "":
 		return "unclassified"
+	case "account-tx-replayed-in-block", "account-tx-replayed-in-later-block", "nonce-already-used":
+		return "nonce-below-next"
+	case "nonce-gap", "nonce-reordered":
+		return "nonce-above-next"
 	}
 	return s
 }
